@@ -213,6 +213,20 @@ impl SrtlaRegistrationManager {
 
     fn handle_reg3(&mut self, _conn_idx: usize) {
         self.has_connected = true;
+        // REG3 means a link is registered *now*, but `active_connections` is only
+        // recounted by the next housekeeping pass. Until then the manager would
+        // still believe no link is registered: a (late) REG_NGP would trigger a
+        // group-creating REG1, and a REG1 still waiting for its REG2 would be
+        // re-sent by housekeeping and could re-key the whole group. Count the
+        // link right away (housekeeping recounts authoritatively) and drop any
+        // pending REG1 attempt: the group exists.
+        self.active_connections = self.active_connections.max(1);
+        if self.pending_reg2_idx.is_some() {
+            debug!("REG3 received; dropping the pending REG1 attempt");
+            self.pending_reg2_idx = None;
+            self.pending_timeout_at_ms = 0;
+            self.reg1_target_idx = None;
+        }
     }
 
     fn handle_reg_err(&mut self, conn_idx: usize, now_ms: u64) {
